@@ -11,7 +11,7 @@ import progs as P
 import values as V
 
 PRELUDE = """From Coq Require Import List String ZArith NArith.
-From DDS Require Import Base.Bytes L0_Hash.PyVal L1_Args.ArgCtx L3_Sig.Program L3_Sig.Sig L4_Eval.Stages L4_Eval.DdsEval L4_Eval.RunEval.
+From DDS Require Import Base.Bytes L0_Hash.PyVal L1_Args.ArgCtx L2_Disc.MiniPy L3_Sig.Program L2_Disc.Visitors L3_Sig.Sig L4_Eval.Stages L4_Eval.DdsEval L4_Eval.RunEval.
 Import ListNotations.
 """
 
@@ -33,7 +33,8 @@ def cfg_coq(act):
 def action_coq(prog, act):
     if act["a"] == "load":
         return f"(ALoad {C.hexs(act['path'])})"
-    term = P.fn_term(prog, act["mod"], act["fn"])
+    # the analysis view is derived INSIDE the model (L2_Disc/Visitors.v: discover) from a transcription of the syntax
+    term = "(discover " + P.mfn_term(prog, act["mod"], act["fn"]) + ")"
     pos = "[" + "; ".join(V.to_coq(x) for x in act.get("pos", [])) + "]"
     kw = "[" + "; ".join(f"({C.hexs(n)}, {V.to_coq(x)})" for n, x in act.get("kw", [])) + "]"
     return f"(ACall {cfg_coq(act)} {term} {style_coq(act)} {pos} {kw})"
